@@ -132,3 +132,41 @@ def project_sensor(sensor, transient=False):
 def project_tree(sensors, transient=False):
     """Order-independent, type-strict projection of gateway.sensors."""
     return tuple(sorted(((tval(nid), project_sensor(s, transient)) for nid, s in sensors.items()), key=repr))
+
+
+# ---------------------------------------------------------------------------------------------
+# Structural copy (used only as a *validated shortcut*: a restored world must reproduce the
+# canonical key of the fresh one, otherwise the explorer falls back to replaying the history)
+
+
+class CannotCopy(Exception):
+    pass
+
+
+def struct_copy(obj):
+    """Copy plain data and objects-with-__dict__ without going through __reduce__/__getstate__."""
+    if isinstance(obj, enum.Enum) or isinstance(obj, _SCALARS):
+        return obj
+    if isinstance(obj, dict):
+        if type(obj) is not dict:
+            raise CannotCopy(type(obj))
+        return {struct_copy(k): struct_copy(v) for k, v in obj.items()}
+    if isinstance(obj, list):
+        return [struct_copy(x) for x in obj]
+    if isinstance(obj, tuple):
+        return tuple(struct_copy(x) for x in obj)
+    if isinstance(obj, deque):
+        return deque(struct_copy(x) for x in obj)
+    if isinstance(obj, set):
+        return {struct_copy(x) for x in obj}
+    if isinstance(obj, bytearray):
+        return bytearray(obj)
+    if isinstance(obj, (types.FunctionType, types.BuiltinFunctionType, types.MethodType, types.ModuleType, type)):
+        raise CannotCopy(type(obj))
+    d = getattr(obj, "__dict__", None)
+    if d is None or getattr(type(obj), "__slots__", None):
+        raise CannotCopy(type(obj))
+    new = object.__new__(type(obj))
+    for k, v in d.items():
+        new.__dict__[k] = struct_copy(v)
+    return new
